@@ -153,6 +153,26 @@ def _find_sa(ep, desc):
     return next((s for s in ep.controller.ike_sas if bytes(s.my_spi) == local), None)
 
 
+def _answers(req, res):
+    """is this response an answer to THAT request (and not to an earlier attempt with the same Message ID)?  Protected
+    exchanges: the Message ID says so.  IKE_SA_INIT (every attempt has ID 0): a normal response in the group of the
+    request's KE, INVALID_KE_PAYLOAD naming another group than the request uses, a COOKIE the request does not carry yet,
+    or any other notification."""
+    if req[2] != 34:
+        return True
+    pl_req, pl_res = req[6], res[6]
+    ke_req = next((p[1] for p in pl_req if p[0] == 'KE'), None)
+    ke_res = next((p[1] for p in pl_res if p[0] == 'KE'), None)
+    if ke_res is not None:
+        return ke_res == ke_req
+    for p in pl_res:
+        if p[0] == 'N' and p[1] == 17:
+            return len(p[4]) == 2 and int.from_bytes(p[4], 'big') != ke_req
+        if p[0] == 'N' and p[1] == 16390:
+            return not any(q[0] == 'N' and q[1] == 16390 and q[4] == p[4] for q in pl_req)
+    return True
+
+
 def m_win(pre, ev, post):
     if ev[0] not in ('deliver', 'dup'):
         return
@@ -218,11 +238,22 @@ def m_win(pre, ev, post):
                        '%s: request ID %d (expected %d) emitted=%d changed=%s netlink=%d' % (
                            name, mid, exp, len(emitted), not unchanged, n_netlink))
     else:
-        outstanding = (sa.state in REQ_SENT_STATES and mid == sa.my_msg_id and sa.request is not None
-                       and int(sa.request.exchange_type) == exch)
+        # what is outstanding is read off the wire (the last request this endpoint emitted on this IKE_SA), not off the
+        # object's own book-keeping
+        mine = [x for x in pre.sent_log if x.sender == name and x.desc[0] not in ('raw', 'enc') and not x.desc[3]
+                and (x.desc[0] if x.desc[4] else x.desc[1]) == spi]
+        outstanding = (sa.state in REQ_SENT_STATES and mid == sa.my_msg_id and bool(mine) and mine[-1].desc[2] == exch
+                       and mine[-1].desc[5] == mid)
         if outstanding:
             COVER['response:outstanding'] += 1
             post_sa = next((s for s in ep_post.controller.ike_sas if bytes(s.my_spi) == spi), None)
+            seen_before = any(r.data == d.data and r.dst == d.dst for r in (pre.recv_log or []))
+            if not seen_before and _answers(mine[-1].desc, desc):
+                COVER['response:outstanding:first-copy'] += 1
+                if unchanged and not emitted and not n_netlink:
+                    yield ('M-win', 'outstanding-response-ignored:%s:%s' % (lab, state_name),
+                           '%s: the first copy of the response to its outstanding request %d (%s) had no effect at all' % (
+                               name, mid, lab))
             if post_sa is not None and post_sa.my_msg_id not in (mid + 1, 0):
                 yield ('M-win', 'response-not-consumed:%s:%s' % (lab, state_name),
                        '%s: response to outstanding request %d accepted but next ID is %d' % (name, mid, post_sa.my_msg_id))
